@@ -234,11 +234,11 @@ def run_c01_cases(name, items, timeout=900):
     for off in range(0, len(items), PER):
         fn = os.path.join(COQ, 'Cases', f"{name}_{off // PER}.v")
         with open(fn, 'w') as f:
-            f.write("From EO Require Import Prelude.Py Prelude.Corr Model.Spec Model.Elab Model.GenHarness.\nOpen Scope string_scope.\nOpen Scope list_scope.\nOpen Scope Z_scope.\n")
+            f.write("From EO Require Import Prelude.Py Prelude.Corr Model.Spec Model.Elab Model.GenHarness Model.GenHarnessB.\nOpen Scope string_scope.\nOpen Scope list_scope.\nOpen Scope Z_scope.\n")
             for k, (tree, cases) in enumerate(items[off:off + PER]):
                 f.write(f"Definition t{k} : list rfile := {coq_tree(tree)}.\n")
                 f.write(f"Definition c{k} : list (string * value * bool) :=\n  [" + ";\n   ".join(f"({cs(c)}, {cvalue(v)}, {cbool(ok)})" for c, v, ok in cases) + "].\n")
-                f.write(f"Eval vm_compute in (tree_c01 t{k} c{k}).\n")
+                f.write(f"Eval vm_compute in (tree_c01B t{k} c{k}).\n")
         files.append((fn, off, min(PER, len(items) - off)))
     results = [None] * len(items)
     procs = []
@@ -251,9 +251,9 @@ def run_c01_cases(name, items, timeout=900):
         out, _ = p.communicate()
         if p.returncode != 0:
             raise CoqCaseError(name, fn, out)
-        ms = re.findall(r'=\s*\((-?\d+),\s*(\[[^\]]*\])\s*(?:%Z)?,\s*(\[[^\]]*\])\s*(?:%Z)?\)', out, flags=re.S)
+        ms = re.findall(r'=\s*\((-?\d+),\s*(-?\d+),\s*(\[[^\]]*\])\s*(?:%Z)?,\s*(\[[^\]]*\])\s*(?:%Z)?\)', out, flags=re.S)
         if len(ms) != n:
             raise CoqCaseError(name, fn, out)
-        for k, (a, b, c) in enumerate(ms):
-            results[off + k] = (int(a), [int(x) for x in re.findall(r'-?\d+', b)], [int(x) for x in re.findall(r'-?\d+', c)])
+        for k, (a, a0, b, c) in enumerate(ms):
+            results[off + k] = (int(a), [int(x) for x in re.findall(r'-?\d+', b)], [int(x) for x in re.findall(r'-?\d+', c)], int(a0))
     return results
